@@ -35,6 +35,16 @@ theorem C11_full_iff_all_buckets_full (sp : Spec) (g : Gen) (h : Nat) (it : Item
     addNogrowGen sp g h it = none ↔ ∀ b, b < 2 ^ g.L → isFull sp (bkt sp g.bs b) = true :=
   addNogrowGen_none_iff sp g h it
 
+/-- **"Hash table is full" only when every bucket is full — for the index functions as translated from the headers.** The loop of
+`pvAddNogrow` over the translated `GetStartBucketIndex` / `GetNextBucketIndex` (any of the four bucket classes that define one, any
+table size `2^L` with `L ≤ 63`, any hash code, any occupancy) gives up only if every bucket is full; otherwise it returns the
+first non-full bucket of the translated probe path and its displacement, which is below the bucket count. -/
+theorem C11_full_only_when_all_buckets_full_translated (f : TrEq.NextFn) (L : Nat) (full : Nat → Bool) (h : Nat) (hL : L ≤ 63) :
+    match TrEq.trAddProbe f L full h with
+    | none => ∀ b, b < 2 ^ L → full b = true
+    | some (p, idx) => p < 2 ^ L ∧ idx = TrEq.trSeq f L h p ∧ full idx = false ∧ ∀ q, q < p → full (TrEq.trSeq f L h q) = true :=
+  TrEq.trAddProbe_spec f L full h hL
+
 /-- **strong guarantee under every fault.** Whatever fault accompanies an insertion — refused bucket
 array, throwing item creation, full table — a failed insertion leaves the table exactly as it was;
 a successful one (even if its migration was cut short at an arbitrary point) adds exactly the item
